@@ -70,197 +70,7 @@ Section Assign.
   Qed.
 End Assign.
 
-(** ---------------------------------------------------------------- the loop over one coarse node computes [assign] *)
-From CGV Require Import Resolve.FragidProofs.
-
 Definition name_in (mol : graph) (n : Z) : option pyval := node_get mol n (S "atomname").
-Definition desc_of (mol : graph) (named : list Z) (n : Z) : res desc :=
-  a <- node_attrs mol n ;;
-  if zin_l n named then v <- of_option (aget (S "atomname") a) EKey ;; Ok (Old v)
-  else el <- of_option (aget (S "element") a) EKey ;; e <- as_str el ;; Ok (New e).
-
-Lemma zin_l_In k l : zin_l k l = true <-> In k l.
-Proof.
-  unfold zin_l. rewrite existsb_exists. split; [intros [x [H E]]; apply Z.eqb_eq in E; now subst|].
-  intros H. exists k. split; [exact H|apply Z.eqb_refl].
-Qed.
-Lemma zin_l_cons k n l : k <> n -> zin_l k (n :: l) = zin_l k l.
-Proof. intros N. unfold zin_l. cbn. destruct (Z.eqb_spec k n); [contradiction|reflexivity]. Qed.
-Lemma node_get_attrs mol n a : node_attrs mol n = Ok a -> name_in mol n = aget (S "atomname") a.
-Proof. unfold node_attrs, name_in, node_get. destruct (gfind n mol); [|discriminate]. intros H. apply ok_inj2 in H. now subst. Qed.
-Lemma map_res_ext_in {A B} (f g : A -> res B) l : (forall x, In x l -> f x = g x) -> GraphOps.map_res f l = GraphOps.map_res g l.
-Proof.
-  induction l as [|x r IH]; intros H; [reflexivity|]. cbn [GraphOps.map_res]. rewrite (H x) by now left.
-  rewrite IH; [reflexivity|]. intros y Hy. apply H. now right.
-Qed.
-
-Lemma inner_fold mn used : forall nodes mol fgs named idx mol' fgs' named' idx', NoDup nodes ->
-  GraphOps.fold_res (name_node mn used) nodes (mol, fgs, named, idx) = Ok (mol', fgs', named', idx') ->
-  exists ds vs, GraphOps.map_res (desc_of mol named) nodes = Ok ds /\ assign used idx ds = Ok vs /\
-    map (name_in mol') nodes = map Some vs /\
-    (forall k, ~ In k nodes -> node_attrs mol' k = node_attrs mol k) /\
-    (forall k, In k named' <-> In k named \/ In k nodes).
-Proof.
-  induction nodes as [|n r IH]; intros mol fgs named idx mol' fgs' named' idx' Hn H.
-  - cbn in H. apply ok_inj2 in H. injection H as -> -> -> ->. exists [], []. split; [reflexivity|]. split; [reflexivity|]. split; [reflexivity|]. split; [auto|]. intros k. cbn. tauto.
-  - cbn [GraphOps.fold_res] in H. destruct (name_node mn used (mol, fgs, named, idx) n) as [st1|] eqn:E1; cbn [bind] in H; [|discriminate].
-    destruct (name_node_inv _ _ _ _ _ _ _ _ E1) as (mol1 & named1 & idx1 & a1 & nm & Hcase & Ha1 & Hnm & ->).
-    inversion Hn as [|? ? Hnr Hr]; subst.
-    destruct (IH _ _ _ _ _ _ _ _ Hr H) as (ds' & vs' & Hds & Has & Hnames & Hkeep & Hnamed).
-    assert (forall m, In m r -> desc_of mol1 named1 m = desc_of mol named m) as Hext.
-    { intros m Hm. assert (m <> n) as Nm by (intros ->; contradiction). unfold desc_of.
-      destruct Hcase as [(_ & -> & -> & _)|(_ & a & el & e & _ & _ & _ & _ & -> & ->)]; [reflexivity|].
-      now rewrite attrs_set_other, zin_l_cons. }
-    rewrite (map_res_ext_in _ _ r Hext) in Hds.
-    assert (name_in mol' n = Some nm) as Hhead.
-    { rewrite (node_get_attrs mol' n a1); [exact Hnm|]. now rewrite (Hkeep n Hnr). }
-    destruct Hcase as [(Hz & -> & -> & ->)|(Hz & a & el & e & Ha & Hel & He & Hb & -> & ->)].
-    + exists (Old nm :: ds'), (nm :: vs'). repeat split.
-      * cbn [GraphOps.map_res]. unfold desc_of at 1. rewrite Ha1, Hz. cbn [bind]. rewrite Hnm. cbn [of_option bind]. now rewrite Hds.
-      * cbn [assign]. now rewrite Has.
-      * cbn [map]. now rewrite Hhead, Hnames.
-      * intros k Hk. apply Hkeep. intros X. apply Hk. now right.
-      * intros Hk. apply Hnamed in Hk as [Hk|Hk]; [now left|right; now right].
-      * intros [Hk|[<-|Hk]]; apply Hnamed; [now left|left; now apply zin_l_In|now right].
-    + assert (nm = VStr (atom_label e idx1)) as ->.
-      { rewrite (attrs_set_same mol n _ _ a Ha) in Ha1. apply ok_inj2 in Ha1. subst a1. rewrite aget_aset_same in Hnm. congruence. }
-      exists (New e :: ds'), (VStr (atom_label e idx1) :: vs'). repeat split.
-      * cbn [GraphOps.map_res]. unfold desc_of at 1. rewrite Ha, Hz. cbn [bind]. rewrite Hel. cbn [of_option bind]. rewrite He. cbn [bind]. now rewrite Hds.
-      * cbn [assign]. rewrite Hb. cbn [bind]. now rewrite Has.
-      * cbn [map]. now rewrite Hhead, Hnames.
-      * intros k Hk. rewrite Hkeep by (intros X; apply Hk; now right). apply attrs_set_other. intros ->. apply Hk. now left.
-      * intros Hk. apply Hnamed in Hk as [[<-|Hk]|Hk]; [right; now left|now left|right; now right].
-      * intros [Hk|[<-|Hk]]; apply Hnamed; [left; now right|left; now left|now right].
-Qed.
-
-(** ---------------------------------------------------------------- one coarse node, then all of them *)
-Lemma olds_used mol named : forall nodes ds used, GraphOps.map_res (desc_of mol named) nodes = Ok ds ->
-  used_names mol named nodes = Ok used -> olds ds = used.
-Proof.
-  unfold used_names. induction nodes as [|n r IH]; intros ds used Hd Hu.
-  - cbn in Hd, Hu. apply ok_inj2 in Hd, Hu. now subst.
-  - cbn [GraphOps.map_res] in Hd. destruct (desc_of mol named n) as [d|] eqn:Ed; cbn [bind] in Hd; [|discriminate Hd].
-    destruct (GraphOps.map_res (desc_of mol named) r) as [ds'|] eqn:Er; cbn [bind] in Hd; [|discriminate Hd]. apply ok_inj2 in Hd. subst ds.
-    unfold desc_of in Ed. cbn [filter] in Hu. destruct (node_attrs mol n) as [a|] eqn:Ea; cbn [bind] in Ed; [|discriminate Ed].
-    destruct (zin_l n named).
-    + cbn [GraphOps.map_res] in Hu. rewrite Ea in Hu. cbn [bind] in Hu.
-      destruct (aget (S "atomname") a) as [v|]; cbn [of_option bind] in Ed, Hu; [|discriminate Ed]. apply ok_inj2 in Ed. subst d.
-      destruct (GraphOps.map_res _ (filter _ r)) as [us|] eqn:Eu; cbn [bind] in Hu; [|discriminate Hu]. apply ok_inj2 in Hu. subst used.
-      cbn. f_equal. now apply IH.
-    + destruct (aget (S "element") a); cbn [of_option bind] in Ed; [|discriminate Ed]. destruct (as_str p); cbn [bind] in Ed; [|discriminate Ed].
-      apply ok_inj2 in Ed. subst d. cbn. now apply IH.
-Qed.
-
-Section Unique.
-  Variable E : list pystr.
-  Hypothesis Hinj : forall e e' i j, In e E -> In e' E -> 0 <= i -> 0 <= j -> atom_label e i = atom_label e' j -> i = j.
-  Definition elemsE (mol : graph) : Prop := forall k el, node_get mol k (S "element") = Some (VStr el) -> In el E.
-
-  Lemma news_in_E mol named : elemsE mol -> forall nodes ds, GraphOps.map_res (desc_of mol named) nodes = Ok ds -> incl (news ds) E.
-  Proof.
-    intros HE. induction nodes as [|n r IH]; intros ds Hd; cbn [GraphOps.map_res] in Hd.
-    - apply ok_inj2 in Hd. subst. intros x [].
-    - destruct (desc_of mol named n) as [d|] eqn:Ed; cbn [bind] in Hd; [|discriminate Hd].
-      destruct (GraphOps.map_res (desc_of mol named) r) as [ds'|] eqn:Er; cbn [bind] in Hd; [|discriminate Hd]. apply ok_inj2 in Hd. subst ds.
-      unfold desc_of in Ed. destruct (node_attrs mol n) as [a|] eqn:Ea; cbn [bind] in Ed; [|discriminate Ed].
-      destruct (zin_l n named).
-      + destruct (aget (S "atomname") a); cbn [of_option bind] in Ed; [|discriminate Ed]. apply ok_inj2 in Ed. subst d. cbn. now apply IH.
-      + destruct (aget (S "element") a) as [el|] eqn:Eel; cbn [of_option bind] in Ed; [|discriminate Ed].
-        destruct el; cbn in Ed; try discriminate Ed. apply ok_inj2 in Ed. subst d. cbn. intros x [<-|Hx]; [|now apply (IH ds')].
-        apply (HE n). unfold node_get. unfold node_attrs in Ea. destruct (gfind n mol); [|discriminate]. apply ok_inj2 in Ea. now subst.
-  Qed.
-
-  (** T1: the names a coarse node's atoms carry after its own pass are pairwise distinct *)
-  Theorem group_names_unique mol fgs named mn nodes mol1 fgs1 named1 used :
-    name_group2 (mol, fgs, named) (mn, nodes) = Ok (mol1, fgs1, named1) -> NoDup nodes -> elemsE mol ->
-    used_names mol named nodes = Ok used -> NoDup used ->
-    NoDup (map (name_in mol1) nodes) /\ (forall k, In k nodes -> In k named1) /\ (forall k, In k named -> In k named1).
-  Proof.
-    intros H Hn HE Hu Hnd. unfold name_group2 in H. cbn [fst snd] in H. rewrite Hu in H. cbn [bind] in H.
-    match type of H with bind ?x _ = _ => destruct x as [[[[m f] nd] ix]|] eqn:Ef end; cbn [bind] in H; [|discriminate H].
-    apply ok_inj2 in H. cbn [fst] in H. injection H as -> -> ->.
-    destruct (inner_fold mn used nodes mol fgs named 0 mol1 fgs1 named1 ix Hn Ef) as (ds & vs & Hds & Has & Hnames & _ & Hnamed).
-    pose proof (olds_used _ _ _ _ _ Hds Hu) as Ho.
-    destruct (assign_spec E Hinj used ds 0 vs ltac:(lia) (news_in_E mol named HE nodes ds Hds)) as [N _]; auto.
-    { rewrite Ho. apply incl_refl. } { now rewrite Ho. }
-    split; [|split; intros k Hk; apply Hnamed; auto].
-    rewrite Hnames. apply FinFun.Injective_map_NoDup; [intros x y Exy; congruence|exact N].
-  Qed.
-
-  (** T2: a later pass never renames an atom that is already named, and keeps the elements *)
-  Lemma node_get_set_other2 g j a v k key : key <> a -> node_get (set_node_attr g j a v) k key = node_get g k key.
-  Proof.
-    intros N. unfold node_get, set_node_attr. destruct (Z.eq_dec k j) as [->|Nk].
-    - rewrite gfind_gupdate_same by reflexivity. destruct (gfind j g); cbn; [now apply aget_aset_other|reflexivity].
-    - now rewrite gfind_gupdate_other.
-  Qed.
-  Lemma node_get_set_other_node g j a v k key : k <> j -> node_get (set_node_attr g j a v) k key = node_get g k key.
-  Proof. intros N. unfold node_get, set_node_attr. now rewrite gfind_gupdate_other. Qed.
-  Lemma atomname_ne_element : S "element" <> S "atomname".
-  Proof. intros H. apply str_eqb_eq in H. vm_compute in H. discriminate. Qed.
-  Definition keeps (named0 : list Z) (mol0 : graph) (st : nstate) : Prop :=
-    (forall k, In k named0 -> name_in (fst (fst st)) k = name_in mol0 k) /\ (forall k, In k named0 -> In k (snd st)) /\
-    (forall k, node_get (fst (fst st)) k (S "element") = node_get mol0 k (S "element")).
-  Lemma name_group2_keeps named0 mol0 st grp st' : keeps named0 mol0 st -> name_group2 st grp = Ok st' -> keeps named0 mol0 st'.
-  Proof.
-    intros Hk H. unfold name_group2 in H. destruct st as [[m f] nd].
-    destruct (used_names m nd (snd grp)) as [used|]; cbn [bind] in H; [|discriminate H].
-    match type of H with bind ?x _ = _ => destruct x as [r2|] eqn:E2 end; cbn [bind] in H; [|discriminate H]. apply ok_inj2 in H. subst st'.
-    apply (fold_res_inv (fun st : nstate * Z => keeps named0 mol0 (fst st)) (name_node (fst grp) used) _) with (st := (m, f, nd, 0)) (st' := r2) in E2;
-      [exact E2| |exact Hk].
-    intros [[[m1 f1] n1] i1] x s2 [K1 [K2 K3]] Hx. cbn [fst snd] in *.
-    destruct (name_node_inv _ _ _ _ _ _ _ _ Hx) as (mol1 & named1 & idx1 & a1 & nm & Hcase & _ & _ & ->). cbn [fst snd].
-    destruct Hcase as [(_ & -> & -> & _)|(Hz & a & el & e & _ & _ & _ & _ & -> & ->)]; [repeat split; auto|].
-    repeat split.
-    - intros k Hkn. rewrite <- (K1 k Hkn). unfold name_in. destruct (Z.eq_dec k x) as [->|N].
-      + exfalso. apply K2 in Hkn. apply zin_l_In in Hkn. congruence.
-      + now apply node_get_set_other_node.
-    - intros k Hkn. right. now apply K2.
-    - intros k. rewrite <- K3. apply node_get_set_other2. apply atomname_ne_element.
-  Qed.
-
-  (** the proviso, read off the run: whenever a coarse node is processed, the names of its already-named atoms
-      are pairwise distinct *)
-  Fixpoint used_distinct (groups : list (Z * list Z)) (st : nstate) : Prop :=
-    match groups with
-    | [] => True
-    | g :: r =>
-        match used_names (fst (fst st)) (snd st) (snd g) with Ok used => NoDup used | Err _ => True end /\
-        match name_group2 st g with Ok st' => used_distinct r st' | Err _ => True end
-    end.
-
-  Theorem groups_names_unique : forall groups st st', GraphOps.fold_res name_group2 groups st = Ok st' ->
-    used_distinct groups st -> (forall g, In g groups -> NoDup (snd g)) -> elemsE (fst (fst st)) ->
-    forall g, In g groups -> NoDup (map (name_in (fst (fst st'))) (snd g)).
-  Proof.
-    induction groups as [|g0 r IH]; intros st st' H Hd Hn HE g Hg; [contradiction|].
-    cbn [GraphOps.fold_res] in H. destruct (name_group2 st g0) as [st1|] eqn:E1; cbn [bind] in H; [|discriminate H].
-    cbn [used_distinct] in Hd. rewrite E1 in Hd. destruct Hd as [Hu Hd].
-    assert (keeps (snd st1) (fst (fst st1)) st1) as K0 by (repeat split; auto).
-    assert (keeps (snd st1) (fst (fst st1)) st') as K.
-    { apply (fold_res_inv (keeps (snd st1) (fst (fst st1))) name_group2 r) with (st := st1); auto. intros; eapply name_group2_keeps; eauto. }
-    assert (keeps [] (fst (fst st)) st1) as Kel.
-    { eapply name_group2_keeps; [|exact E1]. repeat split; auto; intros k []. }
-    assert (elemsE (fst (fst st1))) as HE1 by (intros k el Hk; apply (HE k); destruct Kel as [_ [_ K3]]; now rewrite <- K3).
-    destruct Hg as [<-|Hg]; [|now apply (IH st1 st' H Hd (fun x Hx => Hn x (or_intror Hx)) HE1)].
-    destruct st as [[mol fgs] named], st1 as [[mol1 fgs1] named1], g0 as [mn nodes]. cbn [fst snd] in *.
-    destruct (used_names mol named nodes) as [used|] eqn:Eu.
-    2:{ unfold name_group2 in E1. cbn [fst snd] in E1. rewrite Eu in E1. discriminate. }
-    destruct (group_names_unique mol fgs named mn nodes mol1 fgs1 named1 used E1 (Hn _ (or_introl eq_refl)) HE Eu Hu) as [N [Hin _]].
-    destruct K as [K1 _]. erewrite map_ext_in; [exact N|]. intros k Hk. apply K1. now apply Hin.
-  Qed.
-
-  (** names_unique_per_coarse_node, for the repaired set_atom_names_atomistic *)
-  Theorem names_unique_per_coarse_node mol meta fgs mol' fgs' : set_atom_names mol meta fgs = Ok (mol', fgs') ->
-    used_distinct (fraglist_of meta fgs) (mol, fgs, []) -> (forall g, In g (fraglist_of meta fgs) -> NoDup (snd g)) -> elemsE mol ->
-    forall g, In g (fraglist_of meta fgs) -> NoDup (map (name_in mol') (snd g)).
-  Proof.
-    intros H Hd Hn HE g Hg. unfold set_atom_names in H.
-    destruct (GraphOps.fold_res name_group2 (fraglist_of meta fgs) (mol, fgs, [])) as [r|] eqn:Ef; cbn [bind] in H; [|discriminate H].
-    apply ok_inj2 in H. injection H as <- _.
-    exact (groups_names_unique _ _ _ Ef Hd Hn HE g Hg).
-  Qed.
-End Unique.
 
 (** ---------------------------------------------------------------- element ++ str(index) determines the index *)
 Lemma digit_val_char d : (d < 10)%nat -> digit_val (digit_char d) = d.
